@@ -27,7 +27,9 @@ coordinates written to the input and the approximate orientation reported by the
 """
 import json
 import math
+import os
 import re
+import shutil
 import time
 import numpy as np
 
@@ -686,20 +688,24 @@ def inj_weak_intersection(rng, net, info, name):
     sd = next((o.stdev for o in c1.obs if o.kind == "direction"), 10.0)
     ux, uy = (b.E - a.E) / d, (b.N - a.N) / d
     sg = 1 if rng.uniform() < 0.5 else -1
-    eps = float(rng.choice([1e-4, 2e-4]))
-    for _ in range(6):
-        off = d * eps * sg
-        q = Pt(name, a.E + t * (b.E - a.E) - uy * off, a.N + t * (b.N - a.N) + ux * off, 0.5 * (a.H + b.H),
-               "free", "none")
-        rows = []
-        for s in (a, b):
-            dd = hdist(s, q)
-            rows.append([(q.N - s.N) / dd / dd * CC / 1000.0 / sd, -(q.E - s.E) / dd / dd * CC / 1000.0 / sd])
-        J = np.array(rows)
-        pred = float(np.sqrt(np.max(np.diag(np.linalg.inv(J.T @ J)))))
-        if pred > 5e4:
-            break
-        eps /= 2.0
+    # geometry only moderately acute (1e-3 .. 2e-3 of the base line) and directions of low precision, so that the
+    # point stays numerically well separated from a singular one (condition of the weighted design ~ 1e4) while
+    # its a priori standard deviation is about ten times gama's limit of 10 m
+    eps = float(rng.choice([1e-3, 2e-3]))
+    off = d * eps * sg
+    q = Pt(name, a.E + t * (b.E - a.E) - uy * off, a.N + t * (b.N - a.N) + ux * off, 0.5 * (a.H + b.H),
+           "free", "none")
+    rows = []
+    for s in (a, b):
+        dd = hdist(s, q)
+        rows.append([(q.N - s.N) / dd / dd * CC / 1000.0, -(q.E - s.E) / dd / dd * CC / 1000.0])
+    J = np.array(rows)
+    pred1 = float(np.sqrt(np.max(np.diag(np.linalg.inv(J.T @ J)))))      # for stdev 1 cc
+    sdw = min(1000.0, max(sd, float(round(1e5 / pred1))))
+    pred = pred1 * sdw
+    if pred < 3e4:
+        return inj_isolated(rng, net, info, name)
+    sd = sdw
     info["notes"].append("weak intersection: predicted a priori stdev %.3g mm (eps %.2g)" % (pred, eps))
     net.points[name] = q
     _add_obs(net, c1, "direction", c1.station, name, sd)
@@ -937,14 +943,6 @@ class Seen:
                 d[k] = d.get(k, 0) + 1
         return d
 
-    def first_removed_keys(self):
-        d = {}
-        if self.rev:
-            for o in self.rev[0]["removed"]:
-                k = (cxx_type(o["type"]), o["from"], o["to"])
-                d[k] = d.get(k, 0) + 1
-        return d
-
 
 def multiset(keys):
     d = {}
@@ -1099,7 +1097,6 @@ def evaluate(ck, net, info, items, alg, g, txt, wit):
                     for c in (("xy", "z") if RM_CODE[code][0] == "xyz" else (RM_CODE[code][0],))
                     if not (net.points[pid].give_xy if c == "xy" else net.points[pid].give_z)} \
         if all(pid in net.points for pid, _ in S.rm_points) else set()
-    exp_removed = set(info["exp_points"])
     exp_missing = {k for k, v in info["exp_points"].items() if v == "missing"}
     # observations passive before the test of the absolute terms: those touching points removed before it
     pre_removed = S.removed_components(before_abs=True)
@@ -1219,7 +1216,13 @@ def evaluate(ck, net, info, items, alg, g, txt, wit):
 
     # ---- (H) vs (E): points
     exp_pts = set(info["exp_points"])
+    weakened = None
     for (pid, comp) in sorted(hook_removed - exp_pts):
+        if weakened is None:
+            weakened = base_weakened(net, items, info, P, S.passive_keys(), hook_abs_items)
+        if weakened:
+            ck.count("point removed from a base network that the exclusions left under-determined (not judged)")
+            continue
         code = next(c for p, c in S.rm_points if p == pid and comp in (RM_CODE[c][0] if RM_CODE[c][0] != "xyz" else "xyz"))
         ck.violation("unexpected-exclusion:point:%s" % RM_NAME[code],
                      "gama removed %s of point %s (%s) which is determined by construction [%s]" % (
@@ -1274,6 +1277,7 @@ def evaluate(ck, net, info, items, alg, g, txt, wit):
         ck.violation("phantom:removed-point-listed", "text lists removed point %r (%s) which no hook reported" % (
             lid, reason), wit)
     # every adjustable component of the input is adjusted or reported
+    unreported = False
     for pid, q in net.points.items():
         adj = {k.lower() for k in R["adjusted"].get(pid, {})}
         for comp, st, present in (("xy", q.xy, "x" in adj and "y" in adj), ("z", q.z, "z" in adj)):
@@ -1283,6 +1287,7 @@ def evaluate(ck, net, info, items, alg, g, txt, wit):
                 if present:
                     continue        # reported above as phantom
                 dk = info["exp_points"].get((pid, comp))
+                unreported = True
                 ck.violation("invisible:point:unreported-%s" % comp,
                              "%s of point %s is to be adjusted (adj=), is not in <adjusted> and is not listed among "
                              "the removed points (no rm_point event either)%s [%s]" % (
@@ -1290,11 +1295,13 @@ def evaluate(ck, net, info, items, alg, g, txt, wit):
                              dict(wit, point=pid))
 
     # ---- (H) vs (E): observations
-    exp_passive = closure(net, items, hook_removed | exp_removed, hook_missing | exp_missing, abs_rule)
+    # (the rules for observations are applied to the points gama actually took out, reported or not)
+    exp_passive = closure(net, items, hook_removed | set(silently), hook_missing | (exp_missing & set(silently)),
+                          abs_rule)
     hook_passive = S.passive_keys()
     exp_keys = multiset(items[n].key() for n in exp_passive)
     d1, d2 = ms_diff(hook_passive, exp_keys), ms_diff(exp_keys, hook_passive)
-    if (d1 or d2) and not silently:
+    if d1 or d2:
         ck.violation("exclusion-set:observations",
                      "observations made passive by gama differ from the documented rules: only gama %s, only "
                      "expected %s [%s]" % (sorted(d1.items(), key=str)[:4], sorted(d2.items(), key=str)[:4], alg), wit)
@@ -1332,8 +1339,6 @@ def evaluate(ck, net, info, items, alg, g, txt, wit):
         ck.violation("phantom:outlying-terms-section" + why,
                      "'Outlying absolute terms' section printed, nothing listed and nothing removed", wit)
     # counts
-    act = [it for it in items]
-    by_kind_in = multiset(it.kind for it in items)
     active_keys = ms_diff(multiset(it.key() for it in items), hook_passive)
     by_type_active = {}
     for (typ, f, t), c in active_keys.items():
@@ -1395,7 +1400,6 @@ def evaluate(ck, net, info, items, alg, g, txt, wit):
             have[1] += 1
         elif "z" in k:
             have[2] += 1
-    unreported = any(v["key"].startswith("invisible:point:unreported") for v in ck.violations[-12:])
     if tuple(have) != got and not unreported:
         ck.violation("count-mismatch:xml:coordinates-summary-adjusted",
                      "summary says (xyz, xy, z) = %s, <adjusted> holds %s" % (got, tuple(have)), wit)
@@ -1410,17 +1414,25 @@ def evaluate(ck, net, info, items, alg, g, txt, wit):
                 silently=silently)
 
 
+def base_weakened(net, items, info, P, passive_keys, abs_items):
+    """did the observations gama excluded leave the generated base network rank deficient or a base point with
+    an a priori standard deviation above 1 m?  (then the removal of a base point is no longer 'unexpected')"""
+    base = info["base"]
+    all_base = {it.n for it in items if all(p in base for p in it.points())}
+    pit, _ = passive_items(items, passive_keys, abs_items, None)
+    r0 = determinacy(net, items, all_base, P)
+    r1 = determinacy(net, items, all_base - pit, P)
+    if r1[0] < r0[0] or r1[1] < r0[1]:
+        return True
+    return any(v > 1e3 for v in r1[2].values())
+
+
 def _ori_for(it, ori, dup_station, stations):
     if it.kind != "direction":
         return None
-    if it.frm in dup_station or stations.get(it.frm, 0) != 1:
-        return None
+    if it.frm in dup_station:
+        return None              # two active direction sets at one station: which orientation is whose is unknown
     return ori.get(it.frm)
-
-
-def _items_of(items, keys):
-    """item numbers matching a multiset of keys (all duplicates are taken together)"""
-    return {it.n for it in items if it.key() in keys}
 
 
 def passive_items(items, passive_keys, abs_items, exp_passive):
@@ -1428,12 +1440,12 @@ def passive_items(items, passive_keys, abs_items, exp_passive):
     duplicates"""
     out = set()
     need = dict(passive_keys)
-    for prefer in (abs_items, exp_passive, None):
+    for prefer in (abs_items, exp_passive, ()):
         for it in items:
             k = it.key()
             if it.n in out or need.get(k, 0) <= 0:
                 continue
-            if prefer is None or it.n in prefer:
+            if prefer == () or (prefer is not None and it.n in prefer):
                 out.add(it.n)
                 need[k] -= 1
     return out, {k: v for k, v in need.items() if v > 0}
@@ -1452,137 +1464,142 @@ def run(tier, seed, only=None):
                "every input with the four algorithms; class = (network kind, defect kind, tol-abs, algorithm) + "
                "(rule, network kind, observation kind, tol-abs, side, algorithm) + (deletion, ...)")
     n = tier_n(tier, 100, 2500)
-    idx = [i for i in range(n) if only is None or i == only]
-    cases = {}
-    for i in idx:
-        net, info = gen_case(seed, i)
-        info["kind"] = net.kind
-        cases[i] = (net, info, netgen.to_gkf(net), flatten(net))
+    all_idx = [i for i in range(n) if only is None or i == only]
+    CH = 48      # networks per batch: results of a batch are evaluated and dropped (bounded memory and disk)
+    for c0 in range(0, len(all_idx), CH):
+        idx = all_idx[c0:c0 + CH]
+        wd = os.path.join(ck.tmp, "b%d" % c0)
+        cases = {}
+        for i in idx:
+            net, info = gen_case(seed, i)
+            info["kind"] = net.kind
+            cases[i] = (net, info, netgen.to_gkf(net), flatten(net))
 
-    def work(job):
-        i, alg, stage, txt = job
-        for attempt in range(6):
-            try:
-                g = xmlout.run_gama_local(txt, ck.tmp, "c%d-%s-%s" % (i, stage, alg),
-                                          args=["--algorithm", alg, "--language", "en"], outputs=("xml", "text"),
-                                          trace=True)
-                return job, g
-            except OSError:
-                # the shared build tree is being relinked by another check (binary momentarily not executable)
-                if attempt == 5:
-                    raise
-                time.sleep(5)
+        def work(job):
+            i, alg, stage, txt = job
+            for attempt in range(6):
+                try:
+                    g = xmlout.run_gama_local(txt, wd, "c%d-%s-%s" % (i, stage, alg),
+                                              args=["--algorithm", alg, "--language", "en"], outputs=("xml", "text"),
+                                              trace=True)
+                    return job, g
+                except OSError:
+                    # the shared build tree is being relinked by another check (binary momentarily not executable)
+                    if attempt == 5:
+                        raise
+                    time.sleep(5)
 
-    res = {}
-    for (i, alg, stage, txt), g in runner.pmap(work, [(i, a, "in", cases[i][2]) for i in idx for a in ALGS]):
-        res[(i, alg)] = g
+        res = {}
+        for (i, alg, stage, txt), g in runner.pmap(work, [(i, a, "in", cases[i][2]) for i in idx for a in ALGS]):
+            res[(i, alg)] = g
 
-    second = []
-    summary = {}
-    for i in idx:
-        net, info, txt, items = cases[i]
-        per_alg = {}
-        for alg in ALGS:
-            g = res[(i, alg)]
-            wit = dict(seed=seed, index=i, alg=alg, kind=net.kind, tol_abs=info["tol"], defects=info["defects"],
-                       blunders=[(b["label"], b["factor"]) for b in info["blunders"]],
-                       expected_points=sorted("%s:%s:%s" % (k[0], k[1], v) for k, v in info["exp_points"].items()),
-                       cmd="gama-local in.gkf --algorithm %s --language en --text out.txt --xml out.xml" % alg,
-                       input=txt if len(ck.violations) < 12 else None)
-            if ck.sanitizer(g.rr, wit, prefix="gama-local:"):
+        second = []
+        summary = {}
+        for i in idx:
+            net, info, txt, items = cases[i]
+            per_alg = {}
+            for alg in ALGS:
+                g = res[(i, alg)]
+                wit = dict(seed=seed, index=i, alg=alg, kind=net.kind, tol_abs=info["tol"], defects=info["defects"],
+                           blunders=[(b["label"], b["factor"]) for b in info["blunders"]],
+                           expected_points=sorted("%s:%s:%s" % (k[0], k[1], v) for k, v in info["exp_points"].items()),
+                           cmd="gama-local in.gkf --algorithm %s --language en --text out.txt --xml out.xml" % alg,
+                           input=txt if len(ck.violations) < 12 else None)
+                if ck.sanitizer(g.rr, wit, prefix="gama-local:"):
+                    continue
+                if g.rr.timeout:
+                    ck.inconc("timeout")
+                    continue
+                per_alg[alg] = (evaluate(ck, net, info, items, alg, g, txt, wit), wit)
+            # the four algorithms exclude the same items (the reason code may differ between 'singular' and
+            # 'indeterminable' for a weak point: counted, not judged)
+            sig, sigc = {}, {}
+            ocs = {alg: netlevel.outcome(res[(i, alg)]) for alg in per_alg}
+            for alg, (ex, wit) in per_alg.items():
+                s = ocs[alg] if ex is None else (tuple(sorted(ex["removed"])), tuple(sorted(ex["passive"].items())))
+                sig.setdefault(s, []).append(alg)
+                if ex is not None:
+                    sigc.setdefault(ex["points"], []).append(alg)
+            ill = sorted(set(info["defects"]) & ILL_POSED)
+            dk = "+".join(ill or sorted(set(info["defects"]))) or "blunders-only"
+            if len(sig) > 1:
+                ck.violation("algorithm-dependent-exclusion:%s" % dk,
+                             "the algorithms exclude different items for the same input (%s): %s" % (
+                                 "+".join(sorted(set(info["defects"]))) or "blunders only",
+                                 {",".join(a): (s if isinstance(s, str) else "points %s, %d passive observations %s" % (
+                                     list(s[0]), sum(c for _, c in s[1]),
+                                     sorted(set(s[1]) ^ set(next(x for x in sig if not isinstance(x, str))[1]), key=str)[:3]))
+                                  for s, a in sig.items()}),
+                             dict(seed=seed, index=i, kind=net.kind, defects=info["defects"], outcomes=ocs, input=txt))
+            elif len(sig) == 1 and isinstance(next(iter(sig)), str):
+                ck.violation("not-adjusted:%s:%s" % (dk, next(iter(sig))),
+                             "a network that stays determined after the exclusions was adjusted by no algorithm: %s" % (
+                                 (res[(i, ALGS[0])].xml or {}).get("descriptions") or (res[(i, ALGS[0])].out or "")[-300:]),
+                             dict(seed=seed, index=i, kind=net.kind, defects=info["defects"], outcomes=ocs, input=txt))
+            elif len(sigc) > 1:
+                ck.count("same items removed with different reason codes by different algorithms")
+            # deletion
+            for alg, (ex, wit) in per_alg.items():
+                if ex is None:
+                    continue
+                pit, rest = passive_items(items, ex["passive"], ex["abs_items"], ex["exp_passive"])
+                if rest:
+                    ck.inconc("passive observation of the hook not found in the input")
+                    continue
+                removed = set(ex["removed"]) | set(ex["silently"])
+                if not pit and not removed:
+                    ck.count("runs without any exclusion")
+                    continue
+                v, why = delete_excluded(net, items, pit, removed, ex["missing"] | {
+                    k for k in ex["silently"] if info["exp_points"].get(k) == "missing"})
+                if v is None:
+                    ck.count("deletion not expressible: " + why)
+                    continue
+                second.append((i, alg, "del", netgen.to_gkf(v)))
+                summary[(i, alg)] = (v, ex, wit, len(pit), len(removed))
+
+        for (i, alg, stage, txt2), g2 in runner.pmap(work, second):
+            net, info, txt, items = cases[i]
+            v, ex, wit, npass, nrem = summary[(i, alg)]
+            g1 = res[(i, alg)]
+            wit = dict(wit, reduced_input=txt2 if len(ck.violations) < 12 else None)
+            if ck.sanitizer(g2.rr, wit, prefix="gama-local:reduced:"):
                 continue
-            if g.rr.timeout:
+            if g2.rr.timeout:
                 ck.inconc("timeout")
                 continue
-            per_alg[alg] = (evaluate(ck, net, info, items, alg, g, txt, wit), wit)
-        # the four algorithms exclude the same items (the reason code may differ between 'singular' and
-        # 'indeterminable' for a weak point: counted, not judged)
-        sig, sigc = {}, {}
-        ocs = {alg: netlevel.outcome(res[(i, alg)]) for alg in per_alg}
-        for alg, (ex, wit) in per_alg.items():
-            s = ocs[alg] if ex is None else (tuple(sorted(ex["removed"])), tuple(sorted(ex["passive"].items())))
-            sig.setdefault(s, []).append(alg)
-            if ex is not None:
-                sigc.setdefault(ex["points"], []).append(alg)
-        ill = sorted(set(info["defects"]) & ILL_POSED)
-        dk = "+".join(ill or sorted(set(info["defects"]))) or "blunders-only"
-        if len(sig) > 1:
-            ck.violation("algorithm-dependent-exclusion:%s" % dk,
-                         "the algorithms exclude different items for the same input (%s): %s" % (
-                             "+".join(sorted(set(info["defects"]))) or "blunders only",
-                             {",".join(a): (s if isinstance(s, str) else "points %s, %d passive observations %s" % (
-                                 list(s[0]), sum(c for _, c in s[1]),
-                                 sorted(set(s[1]) ^ set(next(x for x in sig if not isinstance(x, str))[1]), key=str)[:3]))
-                              for s, a in sig.items()}),
-                         dict(seed=seed, index=i, kind=net.kind, defects=info["defects"], outcomes=ocs, input=txt))
-        elif len(sig) == 1 and isinstance(next(iter(sig)), str):
-            ck.violation("not-adjusted:%s:%s" % (dk, next(iter(sig))),
-                         "a network that stays determined after the exclusions was adjusted by no algorithm: %s" % (
-                             (res[(i, ALGS[0])].xml or {}).get("descriptions") or (res[(i, ALGS[0])].out or "")[-300:]),
-                         dict(seed=seed, index=i, kind=net.kind, defects=info["defects"], outcomes=ocs, input=txt))
-        elif len(sigc) > 1:
-            ck.count("same items removed with different reason codes by different algorithms")
-        # deletion
-        for alg, (ex, wit) in per_alg.items():
-            if ex is None:
+            oc2 = netlevel.outcome(g2)
+            cls = ("deletion", "%dd" % info["dim"], "points" if nrem else "-", "observations" if npass else "-", alg)
+            ck.case(cls)
+            ck.count("deletion runs compared")
+            if oc2 != "adjusted":
+                ck.violation("deletion:outcome", "input with the excluded items deleted: %s %s" % (
+                    oc2, (g2.xml or {}).get("descriptions") if g2.xml else (g2.out or "")[-200:]), wit)
                 continue
-            pit, rest = passive_items(items, ex["passive"], ex["abs_items"], ex["exp_passive"])
-            if rest:
-                ck.inconc("passive observation of the hook not found in the input")
-                continue
-            removed = set(ex["removed"]) | set(ex["silently"])
-            if not pit and not removed:
-                ck.count("runs without any exclusion")
-                continue
-            v, why = delete_excluded(net, items, pit, removed, ex["missing"] | {
-                k for k in ex["silently"] if info["exp_points"].get(k) == "missing"})
-            if v is None:
-                ck.count("deletion not expressible: " + why)
-                continue
-            second.append((i, alg, "del", netgen.to_gkf(v)))
-            summary[(i, alg)] = (v, ex, wit, len(pit), len(removed))
-
-    for (i, alg, stage, txt2), g2 in runner.pmap(work, second):
-        net, info, txt, items = cases[i]
-        v, ex, wit, npass, nrem = summary[(i, alg)]
-        g1 = res[(i, alg)]
-        wit = dict(wit, reduced_input=txt2 if len(ck.violations) < 12 else None)
-        if ck.sanitizer(g2.rr, wit, prefix="gama-local:reduced:"):
-            continue
-        if g2.rr.timeout:
-            ck.inconc("timeout")
-            continue
-        oc2 = netlevel.outcome(g2)
-        cls = ("deletion", "%dd" % info["dim"], "points" if nrem else "-", "observations" if npass else "-", alg)
-        ck.case(cls)
-        ck.count("deletion runs compared")
-        if oc2 != "adjusted":
-            ck.violation("deletion:outcome", "input with the excluded items deleted: %s %s" % (
-                oc2, (g2.xml or {}).get("descriptions") if g2.xml else (g2.out or "")[-200:]), wit)
-            continue
-        S2 = Seen(g2)
-        further = S2.rm_points or S2.abs or (S2.rev and S2.rev[-1]["removed"])
-        if further:
-            ck.violation("further-exclusion-after-deletion",
-                         "after deleting everything gama excluded, the reduced input has further exclusions: points %s, "
-                         "abs terms %d, passive %s [%s]" % (S2.rm_points, len(S2.abs),
-                                                           (S2.rev[-1]["removed"] if S2.rev else [])[:3], alg), wit)
-        fr = netgen.Frame()
-        A = netlevel.physical_result(g1.xml, fr)
-        B = netlevel.physical_result(g2.xml, fr)
-        bad = netlevel.compare_physical(A, B, tol_m=1e-7, rel=1e-6)
-        seen_k = set()
-        for key, msg, okey in bad:
-            if key in seen_k:
-                continue
-            seen_k.add(key)
-            ck.violation("deletion:%s" % key, "%s [run with exclusions vs reduced input, %s, case %d]" % (msg, alg, i), wit)
-        ck.count("deletion: fields compared", len(A["points"]) * 3 + sum(len(x) for x in A["obs"].values()) + len(A["cov"]))
-        if i < 3 and alg == ALGS[i % 4]:
-            ck.sample(dict(index=i, kind=net.kind, tol_abs=info["tol"], defects=info["defects"],
-                           blunders=[(b["label"], b["factor"]) for b in info["blunders"]],
-                           removed_points=[(p, RM_NAME[c]) for p, c in ex["points"]],
-                           passive_observations=sum(ex["passive"].values())))
+            S2 = Seen(g2)
+            further = S2.rm_points or S2.abs or (S2.rev and S2.rev[-1]["removed"])
+            if further:
+                ck.violation("further-exclusion-after-deletion",
+                             "after deleting everything gama excluded, the reduced input has further exclusions: points %s, "
+                             "abs terms %d, passive %s [%s]" % (S2.rm_points, len(S2.abs),
+                                                               (S2.rev[-1]["removed"] if S2.rev else [])[:3], alg), wit)
+            fr = netgen.Frame()
+            A = netlevel.physical_result(g1.xml, fr)
+            B = netlevel.physical_result(g2.xml, fr)
+            bad = netlevel.compare_physical(A, B, tol_m=1e-7, rel=1e-6)
+            seen_k = set()
+            for key, msg, okey in bad:
+                if key in seen_k:
+                    continue
+                seen_k.add(key)
+                ck.violation("deletion:%s" % key, "%s [run with exclusions vs reduced input, %s, case %d]" % (msg, alg, i), wit)
+            ck.count("deletion: fields compared", len(A["points"]) * 3 + sum(len(x) for x in A["obs"].values()) + len(A["cov"]))
+            if i < 3 and alg == ALGS[i % 4]:
+                ck.sample(dict(index=i, kind=net.kind, tol_abs=info["tol"], defects=info["defects"],
+                               blunders=[(b["label"], b["factor"]) for b in info["blunders"]],
+                               removed_points=[(p, RM_NAME[c]) for p, c in ex["points"]],
+                               passive_observations=sum(ex["passive"].values())))
+        shutil.rmtree(wd, ignore_errors=True)
     ck.assumptions += [
         "positional misclosure as in the manual (lengths: |obs - computed|; directions/azimuths: |b| d0; angles: |b| "
         "max(d_left, d_right)); zenith angles: |b| * slope length, the band between mark-to-mark and "
@@ -1592,9 +1609,11 @@ def run(tier, seed, only=None):
         "expected removals follow from the construction of the injected defects; the generated base network keeps "
         "its rank when planted blunders are excluded (numpy guard)",
         "deletion: 1e-7 m on coordinates, 1e-6 relative elsewhere (netlevel.compare_physical)"]
-    ck.minimum = dict(evaluations=tier_n(tier, 300, 8000), distinct=tier_n(tier, 60, 300))
-    ck.minimum["observations judged by the rule"] = tier_n(tier, 5000, 100000)
-    ck.minimum["gross absolute terms excluded by gama"] = tier_n(tier, 40, 1000)
+    if only is None:
+        ck.minimum = dict(evaluations=tier_n(tier, 600, 15000), distinct=tier_n(tier, 300, 800))
+        ck.minimum["observations judged by the rule"] = tier_n(tier, 10000, 300000)
+        ck.minimum["gross absolute terms excluded by gama"] = tier_n(tier, 80, 2500)
+        ck.minimum["deletion runs compared"] = tier_n(tier, 150, 5000)
     return ck.finish()
 
 
